@@ -231,6 +231,8 @@ func execHard(f []string) string {
 		return realCtxParams(i64(f[2]), i64(f[3]), i64(f[4]))
 	case "phdr":
 		return realProcessHeaders(parseParams(f[2:11]), f[12:])
+	case "adj":
+		return realAdjustedTime(f[2:])
 	}
 	return "bad-op"
 }
@@ -266,6 +268,37 @@ func realCtxParams(tts, ttpb, af int64) string {
 		return "err:next"
 	}
 	return fmt.Sprintf("%d %d %d %08x", chain.BlocksPerRetarget(), chain.MinRetargetTimespan(), chain.MaxRetargetTimespan(), bits)
+}
+
+// realAdjustedTime drives NewMedianTime / AddTimeSample / Offset / AdjustedTime. Samples are "id:offsetMs"
+// relative to the local clock; the scenario is repeated if the wall-clock second changed while it ran
+// (AddTimeSample reads time.Now() itself).
+func realAdjustedTime(samples []string) string {
+	for attempt := 0; attempt < 20; attempt++ {
+		m := blockchain.NewMedianTime()
+		s0 := time.Now().Unix()
+		out := make([]string, 0, len(samples))
+		okRun := true
+		for _, tok := range samples {
+			io := strings.Split(tok, ":")
+			ms := i64(io[1])
+			m.AddTimeSample(io[0], time.Unix(s0, 0).Add(time.Duration(ms)*time.Millisecond))
+			off := int64(m.Offset() / time.Second)
+			adj := m.AdjustedTime().Unix()
+			if time.Now().Unix() != s0 {
+				okRun = false
+				break
+			}
+			if adj != s0+off {
+				return "adjusted-time-disagrees-with-offset"
+			}
+			out = append(out, strconv.FormatInt(off, 10))
+		}
+		if okRun {
+			return strings.Join(out, ",")
+		}
+	}
+	return "err:clock"
 }
 
 // regtest with the retarget rules of q switched on
@@ -764,6 +797,27 @@ func generateHard(g *core.Gen) {
 			}
 		}
 		emit(g, "phdr", true, fmt.Sprintf("C09 phdr %s %d:%x %s", paramsLine(p), gen.Timestamp.Unix(), gen.Bits, strings.Join(toks, " ")))
+	}
+
+	// network-adjusted time (mediantime.go): 4/5/6 samples, even/odd counts, the +-70 min cap at
+	// 4199/4200/4201 s, sub-second truncation towards zero, duplicate ids, the 200-entry cap (199/200/201)
+	for i := 0; i < g.N(400, 10000); i++ {
+		n := int(r.Pick(1, 4, 5, 6, 7, 9, 11, 15, 30))
+		if i%50 == 0 {
+			n = int(r.Pick(199, 200, 201, 205, 260))
+		}
+		centre := r.Pick(0, 0, 100, -100, 4199, 4200, 4201, -4199, -4200, -4201, 299, 300, 301, 4000, 10000)
+		spread := r.Pick(0, 1, 2, 50, 5000)
+		toks := make([]string, n)
+		for j := range toks {
+			ms := (centre+r.Range(-spread, spread))*1000 + r.Pick(0, 0, 0, 1, 999, -1, -999, 500)
+			id := fmt.Sprintf("p%d", j)
+			if j > 0 && r.Chance(1, 15) {
+				id = fmt.Sprintf("p%d", r.Intn(j)) // duplicate source: ignored
+			}
+			toks[j] = fmt.Sprintf("%s:%d", id, ms)
+		}
+		emit(g, "adj", n >= 5, "C09 adj "+strings.Join(toks, " "))
 	}
 
 	// blockchain.New derives blocksPerRetarget / min / max timespan
